@@ -49,7 +49,7 @@ impl rand::RngCore for SymRng {
     }
 }
 
-// @h name=c19_p8_sample props=C19,C16 fn=Distribution<P8E0>::sample tier=quick t=120 features=rand unwind=3
+// @h name=c19_p8_sample props=C19 fn=Distribution<P8E0>::sample tier=quick t=120 features=rand unwind=3
 #[kani::proof]
 #[kani::unwind(3)]
 fn c19_p8_sample() {
@@ -61,7 +61,7 @@ fn c19_p8_sample() {
     assert!(in_unit_interval(p.to_bits() as u64, 8, 0), "P8E0 sample is a real posit in [0,1)");
 }
 
-// @h name=c19_p16_sub_one props=C19,C16 fn=P16E1::sub_one tier=quick t=120 features=rand unwind=20
+// @h name=c19_p16_sub_one props=C19 fn=P16E1::sub_one tier=quick t=120 features=rand unwind=20
 #[kani::proof]
 #[kani::unwind(20)]
 fn c19_p16_sub_one() {
@@ -75,7 +75,7 @@ fn c19_p16_sub_one() {
     assert!(in_unit_interval(r as u64, 16, 1), "sub_one(x) is a real posit in [0,1) for every 18-bit x");
 }
 
-// @h name=c19_p16_sample props=C19,C16 fn=Distribution<P16E1>::sample tier=quick t=300 features=rand unwind=20
+// @h name=c19_p16_sample props=C19 fn=Distribution<P16E1>::sample tier=quick t=300 features=rand unwind=20
 #[kani::proof]
 #[kani::unwind(20)]
 fn c19_p16_sample() {
@@ -90,7 +90,7 @@ fn c19_p16_sample() {
     assert!(in_unit_interval(p.to_bits() as u64, 16, 1), "P16E1 sample is a real posit in [0,1)");
 }
 
-// @h name=c19_p32_body props=C19,C16 fn=Distribution<P32E2>::sample tier=quick t=600 features=rand unwind=34
+// @h name=c19_p32_body props=C19 fn=Distribution<P32E2>::sample tier=quick t=600 features=rand unwind=34
 #[kani::proof]
 #[kani::unwind(34)]
 fn c19_p32_body() {
@@ -104,7 +104,7 @@ fn c19_p32_body() {
     assert!(in_unit_interval(r as u64, 32, 2), "(1.x - 1) ^ s2 is a real posit in [0,1)");
 }
 
-// @h name=c19_p32_sample props=C19,C16 fn=Distribution<P32E2>::sample tier=quick t=600 features=rand unwind=34
+// @h name=c19_p32_sample props=C19 fn=Distribution<P32E2>::sample tier=quick t=600 features=rand unwind=34
 #[kani::proof]
 #[kani::unwind(34)]
 fn c19_p32_sample() {
